@@ -3,12 +3,16 @@ C03 — Flow items are conserved across the whole factory.
 Per node: accounting laws of the node automata, for EVERY activation sequence (every schedule,
 every environment).  Per edge: C02.  Composition: Spec/Compose.lean, for every graph.
 Per-node laws here: Machine, Source, Sink.  Combiner / Splitter unit accounting: Props/C16 (plan / emitted / dropped);
-Fleet store conservation: Props/C02.fleet_conservation.  The conveyor stores have no conservation theorem (lock-step and judges only).
+Edge laws: Props/C02 (positional stores, BufferStore, FleetStore, slotted and continuous conveyor); their count form is instantiated below
+(`*_edgesum`), so every premise `EdgeSum.ok` / `NodeSum.ok` of the factory identity is discharged by a model theorem.
 -/
 import FsVerif.Proofs.Machine
 import FsVerif.Proofs.SourceSink
 import FsVerif.Spec.Compose
 import FsVerif.Props.C09
+import FsVerif.Proofs.FleetStat
+import FsVerif.Proofs.SlotStat
+import FsVerif.Proofs.CBeltStat
 namespace FsVerif.Props.C03
 open FsVerif
 
@@ -57,6 +61,53 @@ theorem machine_nodesum (cfg : MacCfg) (acts : List MacState.Act) :
                           dropped := (MacState.runActs (MacState.init cfg) acts).dropped.length, received := 0 }) := by
   have := (MacState.reach_minv cfg acts).account.length_eq
   simp only [Compose.NodeSum.ok, List.length_append] at *
+  omega
+
+/-- … and so do the source's and the sink's -/
+theorem source_nodesum (cfg : SrcCfg) (acts : List SrcState.Act) :
+    (Compose.NodeSum.ok { created := (SrcState.runActs (SrcState.init cfg) acts).created.length, pulled := 0,
+                          held := (SrcState.runActs (SrcState.init cfg) acts).hand.length,
+                          pushed := (SrcState.runActs (SrcState.init cfg) acts).pushed.length,
+                          dropped := (SrcState.runActs (SrcState.init cfg) acts).dropped.length, received := 0 }) := by
+  have := (SrcState.reach_sinv cfg acts).account.length_eq
+  simp only [Compose.NodeSum.ok, List.length_append] at *
+  omega
+
+theorem sink_nodesum (n : Nat) (acts : List SinkState.Act) :
+    (Compose.NodeSum.ok { created := 0, pulled := (SinkState.runActs (SinkState.init n) acts).got.length, held := 0, pushed := 0, dropped := 0,
+                          received := (SinkState.runActs (SinkState.init n) acts).received }) := by
+  have := (SinkState.reach_kinv n acts).recv
+  simp only [Compose.NodeSum.ok]
+  omega
+
+/-! ### the edge laws as counts: every edge kind instantiates `EdgeSum.ok` (put = got + inside) in every reachable state -/
+
+theorem buf_edgesum {s : BufStore} (h : BufStore.ReachD s) :
+    (Compose.EdgeSum.ok { put := s.putLog.length, got := s.gotLog.length, inside := s.transit.length + s.ready.length }) := by
+  have := (BufStore.reachD_binv h).toPre.count
+  simp only [Compose.EdgeSum.ok, BufStore.level] at *
+  omega
+
+theorem fleet_edgesum {s : FleetStore} (h : FleetStore.ReachD s) :
+    (Compose.EdgeSum.ok { put := s.b.putLog.length, got := s.b.gotLog.length, inside := s.b.transit.length + s.b.ready.length }) := by
+  have := (FleetStore.reachD_kt h).core.toPre.count
+  simp only [Compose.EdgeSum.ok, BufStore.level] at *
+  omega
+
+theorem slot_edgesum (cfg : SlotCfg) (ops : List SlotBelt.Op) :
+    let s := SlotBelt.run (SlotBelt.init cfg) ops
+    (Compose.EdgeSum.ok { put := s.entered.length, got := s.gotLog.length, inside := s.items.length + s.ready.length }) := by
+  intro s
+  have : s.level + s.gotLog.length = s.entered.length := (SlotBelt.run_cons ops _ (SlotBelt.init_inv cfg) (SlotBelt.init_cons cfg)).count
+  simp only [Compose.EdgeSum.ok, SlotBelt.level] at *
+  omega
+
+theorem cbelt_edgesum (cfg : CCfg) (ops : List CBelt.Op) :
+    let s := CBelt.run (CBelt.init cfg) ops
+    (Compose.EdgeSum.ok { put := s.entered.length, got := s.gotLog.length, inside := s.items.length + s.ready.length }) := by
+  intro s
+  have : s.level + s.gotLog.length = s.entered.length := (CBelt.run_rc ops _ (CBelt.init_rc cfg)).cons.count
+  simp only [Compose.EdgeSum.ok, CBelt.level] at *
   omega
 
 /-! ### non-vacuity on the two RECORDED machine runs of Props/C09: 6 pulled = 0 held + 2 pushed + 4 dropped (non-blocking);
